@@ -278,7 +278,7 @@ func (e *Exec) contractCall(con *Contract, callee *ssa.Function, name string, ar
 	for _, cl := range con.clauses("ensures") {
 		t, err := env2.eval(cl.Expr)
 		if err != nil {
-			if strings.Contains(err.Error(), "unknown identifier") {
+			if strings.Contains(err.Error(), "unknown identifier") || strings.Contains(err.Error(), "callres:") {
 				// the clause speaks about the callee's locals: it is an obligation of the callee only
 				vc.abstracted["postcondition of "+name+" not usable at call sites ("+err.Error()+")"] = true
 				continue
